@@ -987,8 +987,15 @@ func (s *Sim) auditImpostor(r *Rng) {
 			default:
 				s.fillValidBody(msg, r)
 			}
+			execMode := sdk.ExecModeFinalize
+			switch r.Intn(6) {
+			case 0:
+				execMode = sdk.ExecModeSimulate // the check holds in whatever mode the handler runs
+			case 1:
+				execMode = sdk.ExecModeCheck
+			}
 			call := func(m sdk.Msg) (err error, changed bool) {
-				br := s.N.Branch()
+				br := s.N.Branch().WithExecMode(execMode)
 				before := s.N.DumpStore(br, "orbiter")
 				cctpBefore := digestStore(br.KVStore(s.N.App.GetKey("cctp")))
 				func() {
@@ -1022,9 +1029,12 @@ func (s *Sim) auditImpostor(r *Rng) {
 			for at := 1; at <= attempts; at++ {
 				err, changed := call(msg)
 				s.Stats.Count("rule:C10.foreign-signer")
-				s.Stats.States["imp:"+mm.Method+"|"+signerClass(signer, e)+"|"+body] = true
+				s.Stats.States["imp:"+mm.Method+"|"+signerClass(signer, e)+"|"+body+"|"+fmt.Sprint(execMode)] = true
 				if err == nil || changed {
 					fp := fmt.Sprintf("%s accepted signer-class=%s", mm.Method, signerClass(signer, e))
+					if execMode != sdk.ExecModeFinalize {
+						fp += fmt.Sprintf(" exec-mode=%d", execMode)
+					}
 					if at > 1 {
 						fp += " on-repeated-attempt"
 					}
